@@ -16,6 +16,10 @@
   No hash is ever computed here: every function that depends on one returns a `Plan` = the list of comparisons the code
   performs, in order, and the outcome if all of them succeed; `Plan.run` interprets it for a given `Crypto`.
 
+  Two trees are modelled: `fx = true` is the current code (fix commits a62cce4 "xar.Open bounds signature and TOC sizes" and
+  5d6eee4 "xar.Sign refuses archives it cannot re-sign correctly and shifts extended-attribute offsets"), `fx = false` the
+  code before them (`openPlanOrig`, `signPlanOrig`, …), about which the defect theorems (`…_orig`) are stated.
+
   int64: offsets, lengths and sizes are `Int`; Go's `+` wraps (`w64`).  Core Lean only (linked into the native driver).
 -/
 import Relic.Base.Bytes
@@ -148,7 +152,8 @@ structure Env where
 
 structure Env.Laws (E : Env) : Prop where
   num : E.num.Laws
-  dec_enc : ∀ t, ∃ n, E.decode (E.encode t).1 = some (t, n)
+  /-- what was serialised comes back, and its inflated size is the size `WriteTo` reported -/
+  dec_enc : ∀ t, E.decode (E.encode t).1 = some (t, (E.encode t).2)
 
 /-- cryptography: hash functions, the CMS verdict (`blob` verifies as a detached signature over `content`), the PKCS#1 verdict
     (`x509tools.Verify(pub of cert, hash, digest, sig)`) -/
@@ -456,26 +461,32 @@ structure Opened where
   alloc : Nat                   -- bytes requested: inflated TOC + checksum + signature buffers + ticket
   deriving Repr
 
-/-- `make([]byte, n)` followed by `r.ReadAt(buf, off)` -/
-def allocRead (site cls : String) (f : Bytes) (n off : Int) : Res Bytes :=
-  if n < 0 ∨ n > maxAlloc then .panic site else
-  -- an empty buffer: `os.File.ReadAt` answers `0, nil` even at a negative offset?  No: a negative offset is refused first.
-  match readAt f off n.toNat with
-  | some b => .ok b
-  | none => .err cls
+/-- `make([]byte, n)` followed by `r.ReadAt(buf, off)`.  Before the fix `n` came straight from the XML (a negative value or
+    one above 2^48 makes `make` panic); now a size that is negative or larger than the file is refused first. -/
+def allocRead (fx : Bool) (site cls : String) (f : Bytes) (n off : Int) : Res Bytes :=
+  if fx then
+    if n < 0 ∨ n > (f.length : Int) then .err cls else
+    match readAt f off n.toNat with
+    | some b => .ok b
+    | none => .err cls
+  else
+    if n < 0 ∨ n > maxAlloc then .panic site else
+    match readAt f off n.toNat with
+    | some b => .ok b
+    | none => .err cls
 
-/-- the classic signature: `make`, `ReadAt`, `parseCertificates` -/
-def readSig (E : Env) (f : Bytes) (base : Int) : Option XSig → Res (Option Bytes × List String)
+/-- the classic signature: size test (fix), `make`, `ReadAt`, `parseCertificates` -/
+def readSig (fx : Bool) (E : Env) (f : Bytes) (base : Int) : Option XSig → Res (Option Bytes × List String)
   | none => .ok (none, [])
   | some s =>
-    (allocRead "xar.Open:makeslice" "sigread" f s.size (w64 (base + s.offset))).bind fun b =>
+    (allocRead fx "xar.Open:makeslice" "sigread" f s.size (w64 (base + s.offset))).bind fun b =>
       if s.certs.isEmpty then .err "certs"
       else if s.certs.all E.certOk then .ok (some b, s.certs) else .err "certs"
 
-/-- the CMS signature: `make`, `ReadAt` -/
-def readXSig (f : Bytes) (base : Int) : Option XSig → Res (Option Bytes)
+/-- the CMS signature: size test (fix), `make`, `ReadAt` -/
+def readXSig (fx : Bool) (f : Bytes) (base : Int) : Option XSig → Res (Option Bytes)
   | none => .ok none
-  | some s => (allocRead "xar.Open:makeslice" "xsigread" f s.size (w64 (base + s.offset))).bind fun b => .ok (some b)
+  | some s => (allocRead fx "xar.Open:makeslice" "xsigread" f s.size (w64 (base + s.offset))).bind fun b => .ok (some b)
 
 /-- the notary ticket: what lies behind `lastOffset(files) + base`, when that is between 1 and 999999 bytes -/
 def readTicket (f : Bytes) (files : List XFile) (base : Int) : Res (Option Bytes) :=
@@ -490,30 +501,45 @@ def readTicket (f : Bytes) (files : List XFile) (base : Int) : Res (Option Bytes
 def optLen (b : Option Bytes) : Nat := (b.map (·.length)).getD 0
 
 /-- `Open` behind the checksum comparison: both signature blobs, the ticket -/
-def openRest (E : Env) (f : Bytes) (k : HK) (stored : Bytes) (toc : XToc) (base : Int) (inflated : Nat) : Res Opened :=
-  (readSig E f base toc.sig).bind fun sg =>
-  (readXSig f base toc.xsig).bind fun cmsSig =>
+def openRest (fx : Bool) (E : Env) (f : Bytes) (k : HK) (stored : Bytes) (toc : XToc) (base : Int) (inflated : Nat) : Res Opened :=
+  (readSig fx E f base toc.sig).bind fun sg =>
+  (readXSig fx f base toc.xsig).bind fun cmsSig =>
   (readTicket f toc.files base).bind fun ticket =>
     .ok ⟨k, stored, toc, base, sg.1, sg.2, cmsSig, ticket, inflated + k.size + optLen sg.1 + optLen cmsSig + optLen ticket⟩
 
 /-- `Open` once the table of contents has been read into the struct: size and bytes of the stored checksum -/
-def openBody (E : Env) (f : Bytes) (k : HK) (reg : Bytes) (inflated : Nat) (toc : XToc) (base : Int) : Plan Opened :=
+def openBody (fx : Bool) (E : Env) (f : Bytes) (k : HK) (reg : Bytes) (inflated : Nat) (toc : XToc) (base : Int) : Plan Opened :=
   if toc.ck.size ≠ k.size then .fail "cksize" else
   match readAt f (w64 (base + toc.ck.offset)) k.size with
   | none => .fail "ckread"
-  | some stored => ⟨[.hashEq "ckmismatch" k reg stored], openRest E f k stored toc base inflated⟩
+  | some stored => ⟨[.hashEq "ckmismatch" k reg stored], openRest fx E f k stored toc base inflated⟩
 
-/-- `xar.Open(r, size)` on a file with content `f` -/
-def openPlan (E : Env) (f : Bytes) : Plan Opened :=
+/-- `maxTOCSize`: what a header may declare as the uncompressed size of the table of contents (fix) -/
+def maxTOCSize : Int := 100000000
+
+/-- the test the fix put in front of `parseTOC`: `CompressedSize` in `[0, size]`, `UncompressedSize` in `[0, maxTOCSize]` -/
+def tocSizesOk (h : Hdr) (flen : Nat) : Bool :=
+  decide (0 ≤ h.clen ∧ h.clen ≤ (flen : Int) ∧ 0 ≤ h.ulen ∧ h.ulen ≤ maxTOCSize)
+
+/-- `xar.Open(r, size)` on a file with content `f`.  With the fix: the header's sizes are tested first, and `decompress`
+    reads at most `UncompressedSize + 1` bytes and refuses a stream that yields more than was declared. -/
+def openPlanG (fx : Bool) (E : Env) (f : Bytes) : Plan Opened :=
   match parseHeader f with
   | .error e => .fail e
   | .ok (h, k) =>
+    if fx && !tocSizesOk h f.length then .fail "toolarge" else
     match E.decode (regionSR f h.hsize h.clen) with
     | none => .fail "toc"
     | some (root, inflated) =>
+      if fx && decide ((inflated : Int) > h.ulen) then .fail "toc" else
       match unmarshal E.num root with
       | none => .fail "toc"
-      | some toc => openBody E f k (regionSR f h.hsize h.clen) inflated toc (w64 (h.hsize + h.clen))
+      | some toc => openBody fx E f k (regionSR f h.hsize h.clen) inflated toc (w64 (h.hsize + h.clen))
+
+/-- the current tree -/
+def openPlan (E : Env) (f : Bytes) : Plan Opened := openPlanG true E f
+/-- the tree before fix a62cce4 -/
+def openPlanOrig (E : Env) (f : Bytes) : Plan Opened := openPlanG false E f
 
 /-! ### `(*XAR).Verify` -/
 
@@ -543,8 +569,11 @@ def tocRegion (f : Bytes) : Bytes :=
   | none => []
 
 /-- `xar.Open` then `Verify` (signers/xar `verify`) -/
-def verifyPlan (E : Env) (f : Bytes) (skip : Bool) : Plan Verified :=
-  (openPlan E f).bind fun o => verifyOpened f (tocRegion f) o skip
+def verifyPlanG (fx : Bool) (E : Env) (f : Bytes) (skip : Bool) : Plan Verified :=
+  (openPlanG fx E f).bind fun o => verifyOpened f (tocRegion f) o skip
+
+def verifyPlan (E : Env) (f : Bytes) (skip : Bool) : Plan Verified := verifyPlanG true E f skip
+def verifyPlanOrig (E : Env) (f : Bytes) (skip : Bool) : Plan Verified := verifyPlanG false E f skip
 
 /-! ### `Sign`: the etree side -/
 
@@ -596,20 +625,24 @@ def reserve (N : Num) (hk : HK) (ki : KeyInfo) : List Xml × Int :=
   | none =>
     ([ck, newSigElement N "x-signature" "CMS" hk.size cmsSize (some ki.certTexts)], hk.size + cmsSize)
 
+/-- the parents whose `<offset>` child `adjustOffsets` shifts: `<data>` (path `//data/offset`), and since fix 5d6eee4 also `<ea>`
+    (path `//ea/offset`: extended attributes stored in the heap) -/
+def isRef (ea : Bool) (n : String) : Bool := n == "data" || (ea && n == "ea")
+
 mutual
-/-- `adjustOffsets`: every `<offset>` child of a `<data>` element, anywhere in the document, whose `Text()` parses, gets
-    `offset + delta` (int64); `inData` = the parent is a `<data>` element -/
-def adjust (N : Num) (delta : Int) (inData : Bool) : Xml → Xml
+/-- `adjustOffsets`: every `<offset>` child of a `<data>` (`ea`: or `<ea>`) element, anywhere in the document, whose `Text()`
+    parses, gets `offset + delta` (int64); `inRef` = the parent is such an element -/
+def adjust (N : Num) (ea : Bool) (delta : Int) (inRef : Bool) : Xml → Xml
   | .el n as ks =>
-    let ks' := adjustKids N delta (n == "data") ks
-    if inData && n == "offset" then
+    let ks' := adjustKids N ea delta (isRef ea n) ks
+    if inRef && n == "offset" then
       let r := N.atoi (etext ks')
       if r.2 then .el n as (setText (N.fmt (w64 (r.1 + delta))) ks') else .el n as ks'
     else .el n as ks'
   | .tx s => .tx s
-def adjustKids (N : Num) (delta : Int) (inData : Bool) : List Xml → List Xml
+def adjustKids (N : Num) (ea : Bool) (delta : Int) (inRef : Bool) : List Xml → List Xml
   | [] => []
-  | k :: ks => adjust N delta inData k :: adjustKids N delta inData ks
+  | k :: ks => adjust N ea delta inRef k :: adjustKids N ea delta inRef ks
 end
 
 /-- a `<data>` child of a `<file>` element as etree shows it to sign.go: name of the file, `Text()` of the first `<offset>` and
@@ -684,25 +717,110 @@ def prep (N : Num) (hk : HK) (ki : KeyInfo) : Xml → Option Prep
       let rv := reserve N hk ki
       some ⟨.el rn ras (pre ++ Xml.el "toc" tocEl.attrs (rv.1 ++ rm.2) :: post), w64 rm.1, rv.2⟩
 
-/-- the document that is serialised: every `//data/offset` shifted by `newSigSize - origSigSize` -/
-def Prep.tree (N : Num) (p : Prep) : Xml := adjust N (w64 (p.newSig - p.origSig)) false p.doc1
+/-- the document that is serialised: every `//data/offset` (`ea`: and `//ea/offset`) shifted by `newSigSize - origSigSize` -/
+def Prep.tree (N : Num) (ea : Bool) (p : Prep) : Xml := adjust N ea (w64 (p.newSig - p.origSig)) false p.doc1
+
+/-! #### what fix 5d6eee4 added to `Sign` -/
+
+/-- `strconv.ParseInt(textOf(el.SelectElement(n)), 10, 64)`: value and `err == nil` (`textOf(nil)` is "") -/
+def fieldOf (N : Num) (n : String) (ks : List Xml) : Int × Bool :=
+  match first n ks with
+  | some e => N.atoi (etext e.kids)
+  | none => N.atoi ""
+
+/-- one old signature element as the repaired `removeSigs` accepts it: `(offset, size)` with both numbers readable,
+    `0 ≤ size ≤ 10^6`, `0 ≤ offset` -/
+def areaOf (N : Num) (ks : List Xml) : Option (Int × Int) :=
+  let sz := fieldOf N "size" ks
+  let off := fieldOf N "offset" ks
+  if sz.2 ∧ off.2 ∧ 0 ≤ sz.1 ∧ sz.1 ≤ 1000000 ∧ 0 ≤ off.1 then some (off.1, sz.1) else none
+
+/-- the areas of the child elements named `key`, in order; `none` = one of them is invalid -/
+def areasOfKey (N : Num) (key : String) : List Xml → Option (List (Int × Int))
+  | [] => some []
+  | .tx _ :: rest => areasOfKey N key rest
+  | .el n _ ks :: rest =>
+    if n = key then (areaOf N ks).bind fun a => (areasOfKey N key rest).map (a :: ·) else areasOfKey N key rest
+
+/-- all areas in the order `removeSigs` visits them: every `<checksum>`, then every `<signature>`, then every `<x-signature>` -/
+def sigAreas (N : Num) (ks : List Xml) : Option (List (Int × Int)) :=
+  (areasOfKey N "checksum" ks).bind fun a => (areasOfKey N "signature" ks).bind fun b =>
+    (areasOfKey N "x-signature" ks).map fun c => a ++ b ++ c
+
+/-- `sort.Slice(areas, offset <)` as a stable insertion sort (what it is for at most 12 areas) -/
+def insertArea (a : Int × Int) : List (Int × Int) → List (Int × Int)
+  | [] => [a]
+  | x :: xs => if a.1 < x.1 then a :: x :: xs else x :: insertArea a xs
+
+def sortAreas (as : List (Int × Int)) : List (Int × Int) := as.foldl (fun acc a => insertArea a acc) []
+
+/-- the areas must lie back to back from heap offset 0: the running total, or `none`.  (Go accumulates in an int64; with
+    sizes of at most 10^6 that cannot overflow below 9·10^12 elements, so exact integers are used.) -/
+def tile : Int → List (Int × Int) → Option Int
+  | s, [] => some s
+  | s, a :: r => if a.1 ≠ s then none else tile (s + a.2) r
+
+/-- the repaired `removeSigs` as a test on the children of `<toc>`: the size of the old signature area, or the error class -/
+def checkSigAreas (N : Num) (ks : List Xml) : Except String Int :=
+  match sigAreas N ks with
+  | none => .error "sigfield"
+  | some as =>
+    match tile 0 (sortAreas as) with
+    | none => .error "sigtile"
+    | some s => .ok s
+
+/-- the children of `/xar/toc` -/
+def tocKids : Xml → Option (List Xml)
+  | .tx _ => none
+  | .el rn _ rks => if rn ≠ "xar" then none else (splitFirst "toc" rks).map fun r => r.2.1.kids
+
+/-- the etree surgery of the repaired `Sign`: as `prep`, after the old areas have passed the tiling test -/
+def prepFx (N : Num) (hk : HK) (ki : KeyInfo) (t : Xml) : Except String Prep :=
+  match prep N hk ki t, tocKids t with
+  | some p, some tks =>
+    match checkSigAreas N tks with
+    | .error e => .error e
+    | .ok s => .ok { p with origSig := s }
+  | _, _ => .error "notoc"
+
+/-- the tests the repaired `checkFiles` makes while it collects `//file/data`: a member of non-zero length must begin behind
+    the old signature area and must carry an `<archived-checksum>`.  The class of the first offender in document order
+    (etree walks breadth first: with offenders of both kinds the class may be the other one). -/
+def frontCheck (origSig : Int) : List DRef → Option String
+  | [] => none
+  | d :: ds =>
+    if d.length ≠ 0 ∧ d.offset < origSig then some "ffront"
+    else if d.sum = none ∧ d.length ≠ 0 then some "fnosum"
+    else frontCheck origSig ds
 
 /-- `xar.Sign(ctx, r, cert, hashType)` up to the signature computation; `f` = the whole input stream.
     `Sign` reads the TOC from offset 28 whatever the header says about its own size. -/
-def signPlan (E : Env) (f : Bytes) (hk : HK) (ki : KeyInfo) : Plan SignOut :=
+def signPlanG (fx : Bool) (E : Env) (f : Bytes) (hk : HK) (ki : KeyInfo) : Plan SignOut :=
   match parseHeader f with
   | .error e => .fail e
   | .ok (h, _) =>
     if h.clen > 1000000 ∨ h.ulen > 10000000 then .fail "toolarge" else
+    if fx && decide (h.clen < 0 ∨ h.ulen < 0) then .fail "toolarge" else
     match E.decode (region f 28 h.clen) with
     | none => .fail "toc"
-    | some (root, _) =>
-      match prep E.num hk ki root with
-      | none => .fail "notoc"
-      | some p =>
-        let heap := f.drop (28 + h.clen.toNat)
-        let files : Plan Unit := checkAllStream heap 0 (sortRefs (eRefs E.num p.doc1))
-        files.bind fun _ => .pure ⟨hk, p.tree E.num, p.origSig, p.newSig, w64 (28 + h.clen + p.origSig), ki.rsaSize⟩
+    | some (root, inflated) =>
+      if fx && decide ((inflated : Int) > h.ulen) then .fail "toc" else
+      match (if fx then prepFx E.num hk ki root else match prep E.num hk ki root with
+          | some p => .ok p
+          | none => .error "notoc") with
+      | .error e => .fail e
+      | .ok p =>
+        match (if fx then frontCheck p.origSig (dRefs E.num none p.doc1) else none) with
+        | some e => .fail e
+        | none =>
+          let heap := f.drop (28 + h.clen.toNat)
+          let files : Plan Unit := checkAllStream heap 0 (sortRefs (eRefs E.num p.doc1))
+          files.bind fun _ => .pure ⟨hk, p.tree E.num fx, p.origSig, p.newSig, w64 (28 + h.clen + p.origSig), ki.rsaSize⟩
+
+/-- the current tree -/
+def signPlan (E : Env) (f : Bytes) (hk : HK) (ki : KeyInfo) : Plan SignOut := signPlanG true E f hk ki
+/-- the tree before fix 5d6eee4 -/
+def signPlanOrig (E : Env) (f : Bytes) (hk : HK) (ki : KeyInfo) : Plan SignOut := signPlanG false E f hk ki
 
 /-- the header `appendSignatures` writes -/
 def newHdr (hk : HK) (clen ulen : Nat) : Hdr := ⟨xarMagic, 28, 1, clen, ulen, hk.hdr⟩
